@@ -50,6 +50,10 @@ func frame(t uint8, n int, tag string) []byte {
 	return append(b, pay...)
 }
 
+// admittedAll reports whether all n messages created and not yet started on have been
+// admitted, i.e. sit in the receive queue (the last one may still be waiting for room)
+func admittedAll(p *protocol.Protocol, n int) bool { return protocol.VerifRecvQueued(p) >= n }
+
 func fromCbor(t uint, data []byte) (protocol.Message, error) {
 	if t != 1 && t != 3 {
 		return nil, nil
@@ -80,11 +84,15 @@ func concretise(v int, n int) int {
 func RecvStream() {
 	k := sym.Param("msgs")
 	limit := sym.Param("limit")
-	sizes := []int{sym.Param("size1"), sym.Param("size2"), sym.Param("size3")}[:k]
+	sizes := []int{sym.Param("size1"), sym.Param("size2"), sym.Param("size3"), sym.Param("size4"), sym.Param("size5"), sym.Param("size6")}[:k]
 	var mu sync.Mutex
 	var handled []protocol.Message
 	maxPending := 0
-	gate := make(chan struct{}, 4)
+	// ghost account of what is really held: sizes of the messages the read loop has turned into
+	// objects, in arrival order, and how many of them the application has started on
+	var createdSizes []int
+	started, maxHeld := 0, 0
+	gate := make(chan struct{}, 8)
 	var p *protocol.Protocol
 	probe := func() {
 		b, _ := protocol.VerifPendingRecv(p)
@@ -96,10 +104,23 @@ func RecvStream() {
 		MessageFromCborFunc: func(t uint, data []byte) (protocol.Message, error) {
 			mu.Lock()
 			probe()
+			// every message created before this one has been admitted by now; those the
+			// application has not started on yet are held
+			held := 0
+			for _, n := range createdSizes[started:] {
+				held += n
+			}
+			if held > maxHeld {
+				maxHeld = held
+			}
+			createdSizes = append(createdSizes, len(data))
 			mu.Unlock()
 			return fromCbor(t, data)
 		},
 		MessageHandlerFunc: func(m protocol.Message) error {
+			mu.Lock()
+			started++ // the application has this message now ("the single message being processed")
+			mu.Unlock()
 			<-gate // a slow application: each message is held until the environment releases it
 			mu.Lock()
 			probe()
@@ -125,9 +146,10 @@ func RecvStream() {
 		stream = append(stream, f...)
 	}
 	// two arbitrary cut positions -> up to three segments (empty pieces are not sent)
-	// (streams longer than 64 bytes are only cut at the 65535-byte segment limit)
+	// (streams longer than 64 bytes, and four-message streams, are only cut at the 65535-byte
+	// segment limit)
 	cut1, cut2 := 0, 0
-	if len(stream) <= 64 {
+	if len(stream) <= 64 && k <= 3 {
 		c1, c2 := sym.Int("cut1"), sym.Int("cut2")
 		sym.Assume(c1 >= 0 && c1 <= c2 && c2 <= len(stream))
 		cut1 = concretise(c1, len(stream))
@@ -147,6 +169,20 @@ func RecvStream() {
 		// everything is blocked: the peer delivers the next segment, or the application
 		// finishes with one message (nondeterministic choice)
 		turns++
+		mu.Lock()
+		held := 0
+		for _, n := range createdSizes[started:] {
+			held += n
+		}
+		// (the newest created message may still be waiting for admission: it is the one the
+		// read loop itself holds, not counted against the limit)
+		if len(createdSizes) > started && admittedAll(p, len(createdSizes)-started) == false {
+			held -= createdSizes[len(createdSizes)-1]
+		}
+		if held > maxHeld {
+			maxHeld = held
+		}
+		mu.Unlock()
 		if protocol.VerifStopped(p) {
 			return false
 		}
@@ -172,6 +208,7 @@ func RecvStream() {
 	sym.ObsInt("errors", protocol.VerifErrorCount(p))
 	if limit > 0 {
 		sym.Assert(maxPending <= limit, "unprocessed received bytes never exceed the state's limit")
+		sym.Assert(maxHeld <= limit, "the bytes of messages received and not yet started on never exceed the state's limit")
 		b, _ := protocol.VerifPendingRecv(p)
 		sym.Assert(b <= limit, "unprocessed received bytes never exceed the state's limit (end)")
 	}
